@@ -42,6 +42,8 @@ class Spec(PropSpec):
         cases += [F.gen_vanish(ctx.rng, "local") for _ in range(nv)] + [F.gen_vanish(ctx.rng, "sim") for _ in range(nv // 3)]
         nh = 80 if ctx.tier == "quick" else 800
         cases += [F.gen_hook_tick(ctx.rng) for _ in range(nh)]
+        cases += [F.gen_tick_empty(ctx.rng) for _ in range(nh // 2)]
+        cases += [F.gen_unwind(ctx.rng) for _ in range(nh)]
         nb = 12 if ctx.tier == "quick" else 80
         cases += [F.gen_burst(ctx.rng, "local") for _ in range(nb)] + [F.gen_burst(ctx.rng, "sim") for _ in range(nb // 2)]
         ex = F.exhaustive_small()
